@@ -6,6 +6,7 @@ import (
 	"encoding/json"
 	"fmt"
 	"math/rand"
+	"os"
 	"reflect"
 	"runtime"
 	"sort"
@@ -105,10 +106,10 @@ func dumpMessage(md protoreflect.MessageDescriptor, out map[string]string, prefi
 			ok := fs.ByName(fd.Name()) == fd && fs.ByNumber(fd.Number()) == fd && fs.ByJSONName(fd.JSONName()) == fd && fs.ByTextName(fd.TextName()) == fd
 			fmt.Fprintf(&sb, "%v", ok)
 		}
-		os := md.Oneofs()
-		for i := 0; i < os.Len(); i++ {
-			od := os.Get(i)
-			fmt.Fprintf(&sb, " oneof %s/%d/%v", od.Name(), od.Fields().Len(), os.ByName(od.Name()) == od)
+		ons := md.Oneofs()
+		for i := 0; i < ons.Len(); i++ {
+			od := ons.Get(i)
+			fmt.Fprintf(&sb, " oneof %s/%d/%v", od.Name(), od.Fields().Len(), ons.ByName(od.Name()) == od)
 			for j := 0; j < od.Fields().Len(); j++ {
 				f := od.Fields().Get(j)
 				fmt.Fprintf(&sb, "/%v", od.Fields().ByNumber(f.Number()) == f && od.Fields().ByName(f.Name()) == f)
@@ -472,10 +473,18 @@ func registerOwn(g, k int, fail func(string)) string {
 		fmt.Fprintf(&sb, "%v/%v/%v/%v/%v;", err, d == protoreflect.Descriptor(md), err2, mt != nil && mt.Descriptor() == md, err3)
 	}
 	// a second registration of the same path must be refused and must change nothing
+	// (the global registry reports the conflict by panicking, with the lock released by its defer)
 	fd2, _ := protodesc.NewFile(ownFile(g, k), nil)
-	err = protoregistry.GlobalFiles.RegisterFile(fd2)
+	refused := func() (refused bool) {
+		defer func() {
+			if recover() != nil {
+				refused = true
+			}
+		}()
+		return protoregistry.GlobalFiles.RegisterFile(fd2) != nil
+	}()
 	got, _ := protoregistry.GlobalFiles.FindFileByPath(fd.Path())
-	fmt.Fprintf(&sb, "dup=%v same=%v", err != nil, got == fd)
+	fmt.Fprintf(&sb, "dup-refused=%v same=%v", refused, got == fd)
 	return sb.String()
 }
 
@@ -575,6 +584,16 @@ func childC19(res *childResult, sc string, n int, seed int64, trace bool) {
 			}
 			d, im := digestOf(obs)
 			digests[g] = d
+			if os.Getenv("VERIF_CONC_DEBUG") == fmt.Sprint(g) {
+				ks := make([]string, 0, len(obs))
+				for k := range obs {
+					ks = append(ks, k)
+				}
+				sort.Strings(ks)
+				for _, k := range ks {
+					fmt.Fprintf(os.Stderr, "%s = %s\n", k, obs[k])
+				}
+			}
 			mu.Lock()
 			if _, ok := itemMaps[d]; !ok && len(itemMaps) < 3 {
 				itemMaps[d] = im
@@ -664,7 +683,7 @@ func diffItems(a, b map[string]string) []string {
 func runC19(c *C) {
 	c.R.Rule = "one case = one goroutine of one fresh child process making first use of every item of a scenario (desc: all registered file descriptors incl. lazily built tables; types: all registered message/enum/extension types; legacy: legacy and hand-written aberrant messages through ProtoMessageV2Of; registry: lookups + registrations on the global registries) after a barrier; its digest is compared with the digest of a sequential child; non-trivial = child with ≥ 2 goroutines; distinct = distinct (scenario, goroutine count, seed, goroutine)"
 	me := self()
-	seqDigest := map[string]string{}
+	seqDigest := map[string]string{} // (binary label, scenario) → digest of the sequential child of that binary
 	seqRes := map[string]*childResult{}
 	check := func(bin, label, sc string, n int, seed int64, race bool) {
 		spec := fmt.Sprintf("c19:%s:%d:%d", sc, n, seed)
@@ -685,18 +704,18 @@ func runC19(c *C) {
 		for _, f := range res.Fails {
 			c.Fail(vh.Failure{Kind: "property", What: "C19 " + sc + ": " + f, Input: in})
 		}
-		if n == 1 && !race {
-			seqDigest[sc] = res.Digests[0]
-			seqRes[sc] = res
-			c.Hist("sequential:" + sc)
+		if n == 1 {
+			seqDigest[label+sc] = res.Digests[0]
+			seqRes[label+sc] = res
+			c.Hist("sequential:" + label + ":" + sc)
 			return
 		}
-		want := seqDigest[sc]
+		want := seqDigest[label+sc]
 		for g, d := range res.Digests {
 			c.Case(fmt.Sprintf("%s|%s|%d|%d|%d", label, sc, n, seed, g), n > 1)
 			if d != want {
 				in["goroutine"] = g
-				in["differing_items"] = diffItems(detailMap(seqRes[sc], want), detailMap(res, d))
+				in["differing_items"] = diffItems(detailMap(seqRes[label+sc], want), detailMap(res, d))
 				c.Fail(vh.Failure{Kind: "property", What: fmt.Sprintf("C19 %s: goroutine %d of %d observed something else than the sequential program (digest %s, sequential %s)", sc, g, n, d, want), Input: in})
 				break
 			}
@@ -717,28 +736,32 @@ func runC19(c *C) {
 	}
 	for _, sc := range scenarios {
 		check(me, "plain", sc, 1, 0, false)
-		if seqDigest[sc] == "" {
+		if seqDigest["plain"+sc] == "" {
 			c.Fail(vh.Failure{Kind: "panic", What: "C19 sequential child produced no digest for " + sc})
 			continue
 		}
 		// the sequential digest itself must be reproducible
-		first := seqDigest[sc]
+		first, firstRes := seqDigest["plain"+sc], seqRes["plain"+sc]
 		check(me, "plain", sc, 1, 1, false)
-		if seqDigest[sc] != first {
-			c.Fail(vh.Failure{Kind: "property", What: "C19 sequential digest of " + sc + " is not reproducible across processes (harness is not canonical)", Input: map[string]any{"differing_items": diffItems(detailMap(seqRes[sc], seqDigest[sc]), nil)}})
+		if seqDigest["plain"+sc] != first {
+			c.Fail(vh.Failure{Kind: "correspondence", What: "C19 sequential digest of " + sc + " is not reproducible across processes (the harness does not canonicalise enough)",
+				Input: map[string]any{"differing_items": diffItems(detailMap(firstRes, first), detailMap(seqRes["plain"+sc], seqDigest["plain"+sc]))}})
 		}
-		ns := []int{2, 3, 8, 16, 64}
-		reps := c.N(1, 12)
+		ns := []int{3, 16, 64}
+		if c.Thorough() {
+			ns = []int{2, 3, 4, 8, 16, 32, 64}
+		}
+		reps := c.N(1, 10)
 		for rep := 0; rep < reps && !c.Failed(); rep++ {
 			for _, n := range ns {
 				check(me, "plain", sc, n, c.Seed*100+int64(rep), false)
 			}
 		}
 	}
-	if s := seqRes["desc"]; s != nil {
+	if s := seqRes["plaindesc"]; s != nil {
 		c.Sample(map[string]any{"scenario": "desc", "items": len(detailMap(s, s.Digests[0])), "digest": s.Digests[0]})
 	}
-	if s := seqRes["types"]; s != nil {
+	if s := seqRes["plaintypes"]; s != nil {
 		c.Sample(map[string]any{"scenario": "types", "items": len(detailMap(s, s.Digests[0])), "digest": s.Digests[0]})
 	}
 	if c.HasModel() {
@@ -759,8 +782,12 @@ func runC19(c *C) {
 	} else {
 		nRace := 0
 		for _, sc := range scenarios {
+			check(v.Race, "race", sc, 1, 0, true)
+			if seqDigest["race"+sc] == "" {
+				continue
+			}
 			for rep := 0; rep < c.N(1, 6) && !c.Failed(); rep++ {
-				for _, n := range []int{4, 16} {
+				for _, n := range []int{4, 16}[c.N(1, 0):] {
 					check(v.Race, "race", sc, n, c.Seed*100+int64(rep), true)
 					nRace++
 				}
